@@ -40,6 +40,7 @@ def specPre (s : HSpec) : HOp → Prop
   | .init _ c _ => SWO c
   | .pushElem _ e => e < s.fresh ∧ ∀ h', e ∉ s.live h'
   | .setFix h e _ => ∀ h', h' ≠ h → e ∉ s.live h'
+  | .setRemove h e _ => ∀ h', h' ≠ h → e ∉ s.live h'
   | _ => True
 
 /-- `e` is live in `h` and no live element of `h` precedes it (in `h`'s comparator). -/
@@ -75,6 +76,7 @@ def specOK (s : HSpec) : HOp → HRet → Prop
   | .remove _ _, r => r = .unit
   | .fix _ _, r => r = .unit
   | .setFix _ _ _, r => r = .unit
+  | .setRemove _ _ _, r => r = .unit
   | .popAll h, r => ∃ xs, r = .vals xs ∧ xs.Perm ((s.live h).map s.val) ∧
       xs.Pairwise (fun a b => s.cmp h b a = false)
   | .popAllN h k, r => ∃ es, r = .popped es ∧ PopsOK s h k es
@@ -94,6 +96,8 @@ def specStep (s : HSpec) : HOp → HRet → HSpec
   | .popAllN h _, .popped es => specPops s h es
   | .remove h e, _ => { s with live := s.setLive h ((s.live h).erase e) }
   | .setFix _ e v, _ => { s with val := fun x => if x = e then v else s.val x }
+  | .setRemove h e v, _ =>
+    { s with val := fun x => if x = e then v else s.val x, live := s.setLive h ((s.live h).erase e) }
   | .popAll h, _ => { s with live := s.setLive h [] }
   | _, _ => s
 
@@ -388,6 +392,41 @@ theorem step_refines {st : HState} {s : HSpec} (R : Rel st s) (op : HOp)
         rw [hrun]; rfl
       refine ⟨{ st with m := m1 }, .unit, hstep, rfl, ?_⟩
       exact ⟨memOK_setVal_dead hok v hdead, R.live, hvalS m1 rfl, R.fresh, R.cmpEq, R.swo⟩
+  | setRemove h e v =>
+    have hvalS : ∀ (m' : HMem), m'.val = st.m.val.set e v →
+        ∀ x, m'.val.get x = (specStep s (.setRemove h e v) .unit).val x := by
+      intro m' hm' x
+      rw [hm', IM.get_set]; simp only [specStep, R.val]
+    by_cases hown : st.m.own.get e = some h.val
+    · obtain ⟨m', hrun, hok', hperm, hoth, hval, hfresh, _, _⟩ :=
+        remove_change_spec (val' := st.m.val.set e v) (swo_of R h) h.isLt hok
+          (fun x hx => by rw [IM.get_set]; simp [hx]) hown
+      refine ⟨{ st with m := m' }, .unit, by simp [stepH, hrun], rfl, ?_⟩
+      refine rel_mk R h hok' ?_ hoth (fun h' hne => by simp only [specStep]; exact setLive_other s h _ h' hne)
+        (hvalS m' hval) ?_ rfl
+      · simp only [specStep, setLive_self]
+        exact perm_erase_of_cons (hperm.trans (R.live h))
+      · rw [hfresh]; exact R.fresh
+    · let m1 : HMem := { st.m with val := st.m.val.set e v }
+      have hrun : m1.remove (st.cmp h.val) h.val e = some m1 :=
+        (heap_handles_ignored (st.cmp h.val) m1 h.val e hown).1
+      have hdead : ∀ h', h' < 2 → e ∉ st.m.arr h' := by
+        intro h' hh' he
+        by_cases hne : (⟨h', hh'⟩ : Fin 2) = h
+        · exact hown (by rw [← hne]; exact (hok.core.own e h' hh').2 he)
+        · exact hpre ⟨h', hh'⟩ hne ((R.live ⟨h', hh'⟩).mem_iff.1 he)
+      have hstep : stepH st (.setRemove h e v) = some ({ st with m := m1 }, .unit) := by
+        show (m1.remove (st.cmp h.val) h.val e).map (fun m2 => (({ st with m := m2 } : HState), HRet.unit)) = _
+        rw [hrun]; rfl
+      refine ⟨{ st with m := m1 }, .unit, hstep, rfl, ?_⟩
+      have hnot : e ∉ s.live h := fun he => hown ((mem_live_iff R h e).1 he)
+      refine ⟨memOK_setVal_dead hok v hdead, ?_, hvalS m1 rfl, R.fresh, R.cmpEq, R.swo⟩
+      intro h'
+      show (st.m.arr h'.val).Perm _
+      simp only [specStep]
+      by_cases hne : h' = h
+      · subst hne; rw [setLive_self, List.erase_of_not_mem hnot]; exact R.live h'
+      · rw [setLive_other s h _ h' hne]; exact R.live h'
   | popAll h =>
     obtain ⟨m', xs, hrun, hok', hemp, hoth, hval, hfresh, hperm, hsorted⟩ :=
       popAll_spec (swo_of R h) h.isLt (st.m.arr h.val).length st.m rfl hok
